@@ -458,13 +458,13 @@ theorem runU_go_layout {C : Codecs} {T : String → Prop} (hC : LawfulCodecs C T
       (∀ sl ∈ u, SlotFit C T env' sl) →
       (∀ b, restOnlyLast (u.filter (·.blk == b)) = true) →
       Inv C env' pos s.P s.D s.offset u → Agree seen s.env env' →
-      ∃ d, runU.go C s stmts = .ok d ∧
+      ∃ d, runU.go C s stmts = .ok d ∧ (∀ g ∈ seen, d.get g = env'.get g) ∧
         (NoFire hp hd s.P s.D → ∀ g, (g ∈ seen ∨ g ∈ u.map Slot.field) → d.get g = env'.get g) := by
   induction stmts using layoutU.induct with
   | case1 =>
     intro u pos seen s pad hl _ _ _ _ _ hag
     simp only [layoutU, Option.some.injEq] at hl; subst hl
-    refine ⟨s.env, go_nil C s, fun _ g hg => ?_⟩
+    refine ⟨s.env, go_nil C s, fun g hg => hag g hg, fun _ g hg => ?_⟩
     rcases hg with hg | hg
     · exact hag g hg
     · simp at hg
@@ -475,7 +475,7 @@ theorem runU_go_layout {C : Codecs} {T : String → Prop} (hC : LawfulCodecs C T
     have hrel' : relationsHold C env' plen pad r = true := by simpa [relationsHold] using hrel
     by_cases hfire : ((!p || s.P.isEmpty) && (!d || s.D.isEmpty)) = true
     · have hst : runUStmt C s (.retIfEmpty p d) = .ret := by rw [runUStmt, if_pos hfire]
-      refine ⟨s.env, go_ret r hst, fun hnf => ?_⟩
+      refine ⟨s.env, go_ret r hst, fun g hg => hag g hg, fun hnf => ?_⟩
       exfalso
       obtain ⟨⟨hp1, hd1⟩, _⟩ := hok
       simp only [Bool.and_eq_true, Bool.or_eq_true, Bool.not_eq_true', List.isEmpty_iff] at hfire
@@ -528,10 +528,11 @@ theorem runU_go_layout {C : Codecs} {T : String → Prop} (hC : LawfulCodecs C T
     have h2 := step_advance C { s with env := s.env.set f (.n x) } (.lit n) n rfl
     have hinv' := hinv.step (sl := .int b n e f) hok.1
     rw [hsb, intBytes_length] at hinv'
-    obtain ⟨d, hd, hagree⟩ := ih u' (pos.read b) (f :: seen)
+    obtain ⟨d, hd, hseen, hagree⟩ := ih u' (pos.read b) (f :: seen)
       { s with env := s.env.set f (.n x), offset := s.offset + n } pad hl' hok.2 hrel'
       (fun sl h => hfit sl (List.mem_cons_of_mem _ h)) (restOnlyLast_tail hrest) hinv' (hag.set f (.n x) hx)
-    exact ⟨d, by rw [go_next2 r h1 h2]; exact hd, fun hnf g hg => hagree hnf g (mem_shift hg)⟩
+    exact ⟨d, by rw [go_next2 r h1 h2]; exact hd, fun g hg => hseen g (List.mem_cons_of_mem _ hg),
+      fun hnf g hg => hagree hnf g (mem_shift hg)⟩
   | case6 b w e f n r hne => intro u pos seen s pad hl; simp [layoutU, hne] at hl
   | case7 b e f n r ih =>
     intro u pos seen s pad hl hok hrel hfit hrest hinv hag
@@ -548,10 +549,11 @@ theorem runU_go_layout {C : Codecs} {T : String → Prop} (hC : LawfulCodecs C T
     have h2 := step_advance C { s with env := s.env.set f (.n x) } (.lit n) n rfl
     have hinv' := hinv.step (sl := .int b n e f) hok.1
     rw [hsb, intBytes_length] at hinv'
-    obtain ⟨d, hd, hagree⟩ := ih u' (pos.read b) (f :: seen)
+    obtain ⟨d, hd, hseen, hagree⟩ := ih u' (pos.read b) (f :: seen)
       { s with env := s.env.set f (.n x), offset := s.offset + n } pad hl' hok.2 hrel'
       (fun sl h => hfit sl (List.mem_cons_of_mem _ h)) (restOnlyLast_tail hrest) hinv' (hag.set f (.n x) hx)
-    exact ⟨d, by rw [go_next2 r h1 h2]; exact hd, fun hnf g hg => hagree hnf g (mem_shift hg)⟩
+    exact ⟨d, by rw [go_next2 r h1 h2]; exact hd, fun g hg => hseen g (List.mem_cons_of_mem _ hg),
+      fun hnf g hg => hagree hnf g (mem_shift hg)⟩
   | case8 b w e f n r hne => intro u pos seen s pad hl; simp [layoutU, hne] at hl
   | case9 b f r ih =>
     intro u pos seen s pad hl hok hrel hfit hrest hinv hag
@@ -568,10 +570,11 @@ theorem runU_go_layout {C : Codecs} {T : String → Prop} (hC : LawfulCodecs C T
     have h2 := step_advance C { s with env := s.env.set f (.n x) } (.lit 1) 1 rfl
     have hinv' := hinv.step (sl := .u8 b f) hok.1
     rw [hsb] at hinv'
-    obtain ⟨d, hd, hagree⟩ := ih u' (pos.read b) (f :: seen)
+    obtain ⟨d, hd, hseen, hagree⟩ := ih u' (pos.read b) (f :: seen)
       { s with env := s.env.set f (.n x), offset := s.offset + 1 } pad hl' hok.2 hrel'
       (fun sl h => hfit sl (List.mem_cons_of_mem _ h)) (restOnlyLast_tail hrest) hinv' (hag.set f (.n x) hx)
-    exact ⟨d, by rw [go_next2 r h1 h2]; exact hd, fun hnf g hg => hagree hnf g (mem_shift hg)⟩
+    exact ⟨d, by rw [go_next2 r h1 h2]; exact hd, fun g hg => hseen g (List.mem_cons_of_mem _ hg),
+      fun hnf g hg => hagree hnf g (mem_shift hg)⟩
   | case10 b f m r ih =>
     intro u pos seen s pad hl hok hrel hfit hrest hinv hag
     simp only [layoutU, if_true, Option.map_eq_some_iff] at hl
@@ -590,10 +593,11 @@ theorem runU_go_layout {C : Codecs} {T : String → Prop} (hC : LawfulCodecs C T
     have h2 := step_advance C { s with env := s.env.set f (.b bs) } m bs.length hm'
     have hinv' := hinv.step (sl := .bytes b f (some m)) hok.1.1
     rw [hsb] at hinv'
-    obtain ⟨d, hd, hagree⟩ := ih u' (pos.read b) (f :: seen)
+    obtain ⟨d, hd, hseen, hagree⟩ := ih u' (pos.read b) (f :: seen)
       { s with env := s.env.set f (.b bs), offset := s.offset + bs.length } pad hl' hok.2 hrel'
       (fun sl h => hfit sl (List.mem_cons_of_mem _ h)) (restOnlyLast_tail hrest) hinv' hag'
-    exact ⟨d, by rw [go_next2 r h1 h2]; exact hd, fun hnf g hg => hagree hnf g (mem_shift hg)⟩
+    exact ⟨d, by rw [go_next2 r h1 h2]; exact hd, fun g hg => hseen g (List.mem_cons_of_mem _ hg),
+      fun hnf g hg => hagree hnf g (mem_shift hg)⟩
   | case11 b f n m r hne => intro u pos seen s pad hl; simp [layoutU, hne] at hl
   | case12 b g r ih =>
     intro u pos seen s pad hl hok hrel hfit hrest hinv hag
@@ -617,10 +621,11 @@ theorem runU_go_layout {C : Codecs} {T : String → Prop} (hC : LawfulCodecs C T
       (by simp [evalExpr, Env.get_set_self])
     have hinv' := hinv.step (sl := .bytes b g none) hok.1
     rw [hsb] at hinv'
-    obtain ⟨d, hd, hagree⟩ := ih u' (pos.read b) (g :: seen)
+    obtain ⟨d, hd, hseen, hagree⟩ := ih u' (pos.read b) (g :: seen)
       { s with env := s.env.set g (.b bs), offset := s.offset + bs.length } pad hl' hok.2 hrel'
       (fun sl h => hfit sl (List.mem_cons_of_mem _ h)) (restOnlyLast_tail hrest) hinv' (hag.set g (.b bs) hget)
-    exact ⟨d, by rw [go_next2 r h1 h2]; exact hd, fun hnf g hg => hagree hnf g (mem_shift hg)⟩
+    exact ⟨d, by rw [go_next2 r h1 h2]; exact hd, fun g hg => hseen g (List.mem_cons_of_mem _ hg),
+      fun hnf g hg => hagree hnf g (mem_shift hg)⟩
   | case13 b f g r hne => intro u pos seen s pad hl; simp [layoutU, hne] at hl
   | case14 b f m r ih =>
     intro u pos seen s pad hl hok hrel hfit hrest hinv hag
@@ -636,10 +641,11 @@ theorem runU_go_layout {C : Codecs} {T : String → Prop} (hC : LawfulCodecs C T
     have h2 := step_advance C { s with env := s.env.set f (.b bs) } (.lit m) m rfl
     have hinv' := hinv.step (sl := .arr b f) hok.1
     rw [hsb, ← hm] at hinv'
-    obtain ⟨d, hd, hagree⟩ := ih u' (pos.read b) (f :: seen)
+    obtain ⟨d, hd, hseen, hagree⟩ := ih u' (pos.read b) (f :: seen)
       { s with env := s.env.set f (.b bs), offset := s.offset + m } pad hl' hok.2 hrel'
       (fun sl h => hfit sl (List.mem_cons_of_mem _ h)) (restOnlyLast_tail hrest) hinv' (hag.set f (.b bs) hget)
-    exact ⟨d, by rw [go_next2 r h1 h2]; exact hd, fun hnf g hg => hagree hnf g (mem_shift hg)⟩
+    exact ⟨d, by rw [go_next2 r h1 h2]; exact hd, fun g hg => hseen g (List.mem_cons_of_mem _ hg),
+      fun hnf g hg => hagree hnf g (mem_shift hg)⟩
   | case15 b f n m r hne => intro u pos seen s pad hl; simp [layoutU, hne] at hl
   | case16 b f t win r ih =>
     intro u pos seen s pad hl hok hrel hfit hrest hinv hag
@@ -671,10 +677,11 @@ theorem runU_go_layout {C : Codecs} {T : String → Prop} (hC : LawfulCodecs C T
     have h2 := step_advanceRead C { s with env := s.env.set f (.t v2), bytesRead := bs.length }
     have hinv' := hinv.step (sl := .sub b f t win) hok.1.1
     rw [hsb] at hinv'
-    obtain ⟨d, hd, hagree⟩ := ih u' (pos.read b) (f :: seen)
+    obtain ⟨d, hd, hseen, hagree⟩ := ih u' (pos.read b) (f :: seen)
       { s with env := s.env.set f (.t v2), bytesRead := bs.length, offset := s.offset + bs.length } pad hl' hok.2 hrel'
       (fun sl h => hfit sl (List.mem_cons_of_mem _ h)) (restOnlyLast_tail hrest) hinv' (hag.set f (.t v2) hget)
-    exact ⟨d, by rw [go_next2 r h1 h2]; exact hd, fun hnf g hg => hagree hnf g (mem_shift hg)⟩
+    exact ⟨d, by rw [go_next2 r h1 h2]; exact hd, fun g hg => hseen g (List.mem_cons_of_mem _ hg),
+      fun hnf g hg => hagree hnf g (mem_shift hg)⟩
   | case17 head tail h1 h2 h3 h4 h5 h6 h7 h8 h9 h10 =>
     intro u pos seen s pad hl
     rw [layoutU] at hl
